@@ -90,7 +90,7 @@ def run(ctx: core.Ctx) -> int:
                           "label": json.dumps({"style": st["name"], "class": g["st"], "replace": g["replace"],
                                                "kinds": [ln["k"] for ln in g["body"]], "eol": repr(eols[n % 3]),
                                                "bom": n % 7 == 0, "finalNL": n % 4 != 0})})
-    events = core.pmap(run_case, cases, chunksize=64)
+    events = ctx.pmap(run_case, cases, chunksize=64)
     for ev in events[:: max(1, len(events) // 4)][:4]:
         ctx.samples.append({"case": json.loads(ev["label"]), "before": ev["text"]["before"], "after": ev["text"]["after"],
                             "post": ev["post"]})
